@@ -9,7 +9,7 @@ const C = require('./lib/common')
 const RT = require('./lib/rt_record')
 const T = require('./lib/tmplmodel')
 
-const SEGS = ['a', 'b', '.', '..']
+const SEGS = ['a', 'b', '.', '..', ''] // (an empty segment: a//t — only agreement of the two halves is asserted for those)
 const BASES = ['m', 'a/m', 'b/m', 'a/b/m', 'b/a/m', 'a/b/a/m']
 const SUFFIX = { include: '.wxml', import: '.wxml', wxs: '.wxs' }
 
